@@ -67,7 +67,10 @@ D3(u) == D2(u) \cup Level(Level(Level(D0, {Val("I", "1", <<>>)}), {Val("I", "1",
 (* where its mapping sits): mapping value, struct field, sequence item, variant payloads, value of another composite key *)
 CKeys == {Val("Seq", "", <<Val("I", "1", <<>>), Val("I", "2", <<>>)>>), Val("Tup", "", <<Val("I", "1", <<>>), Val("S", "x", <<>>)>>),
           Val("TS", "", <<Val("I", "1", <<>>), Val("I", "2", <<>>), Val("I", "3", <<>>)>>), Val("Seq", "", <<Val("Seq", "", <<Val("I", "1", <<>>), Val("I", "2", <<>>)>>), Val("I", "3", <<>>)>>),
-          Val("Struct", "", <<Val("I", "1", <<>>), Val("I", "2", <<>>)>>)}
+          Val("Struct", "", <<Val("I", "1", <<>>), Val("I", "2", <<>>)>>),
+          \* enum variants with a payload in key position (written `? Variant: payload`)
+          Val("NV", "", <<Val("I", "7", <<>>)>>), Val("NV", "", <<Val("S", "x", <<>>)>>),
+          Val("TV", "", <<Val("I", "1", <<>>), Val("I", "2", <<>>)>>), Val("SV", "", <<Val("I", "1", <<>>)>>)}
 CKMaps == {Val("Map", "", <<k, Val("I", "7", <<>>)>>) : k \in CKeys}
           \cup {Val("Map", "", <<k, Val("I", "7", <<>>), KeyS("m"), Val("I", "8", <<>>)>>) : k \in CKeys}
           \cup {Val("Map", "", <<KeyS("m"), Val("I", "8", <<>>), k, Val("Seq", "", <<Val("I", "7", <<>>)>>)>>) : k \in CKeys}
